@@ -40,3 +40,87 @@ def get_start_index_contract():
         # the numeric reading of 'start:end' (split + int on strings) is left undecided by the solvers: not claimed
         # here, exercised by the bounded join schedules instead
         raises={"ValueError": None, "IndexError": None}, modifies=None)
+
+
+# --------------------------------------------------------------------------------------------------------------------
+# StateEngine.branch_has_terminated on its REAL body, for an event whose execution and fan-out already have their join
+# records (the lazy creation after a restart is the other path; it is exercised by the bounded stand-ins only).
+# DRAFT, NOT REGISTERED IN ANY PROPERTY: 68 of its 82 obligations discharge, but the clauses that carry C02/C05/C06 (the
+# terminated-iff, slot and held-id clauses) and eight no-KeyError obligations stay `unknown` in all three solvers at 30 s
+# (18 minutes for the unit), so nothing is claimed from it; the scenarios nested-outer-fails / nested-inner-caught of the
+# C05 / C06 stand-ins exercise this function instead.
+# --------------------------------------------------------------------------------------------------------------------
+def branch_has_terminated_contract():
+    from pyvc.contracts import Registry
+    from contracts import engine as E
+    sc = Registry()
+    for g, t in (("b_nack", "int"), ("b_ack_id", "val"), ("b_ncpr", "int"), ("b_cpr_arn", "val"), ("b_ack_ncpr", "int")):
+        sc.ghost(g, t)
+    sc.external("self.logger.*", ["msg"], modifies=None, result_type="none")
+    sc.external("self.event_dispatcher.acknowledge", ["id"], modifies=None, result_type="none",
+                ghost={"b_nack": "b_nack + 1", "b_ack_id": "id", "b_ack_ncpr": "b_ncpr"})
+    sc.external("self.check_pending_results", ["execution_arn"], modifies="ALL", preserves="PROTECTED", result_type="none",
+                ghost={"b_ncpr": "b_ncpr + 1", "b_cpr_arn": "execution_arn"},
+                assumes=["check_pending_results does not write the result / id lists of join records (it acknowledges, cancels and "
+                         "deletes the execution's entry)"])
+    ARN = "context['Execution']['Id']"
+    BR = "('Branch' in context['State'])"
+    ST = "context['State']['Branch']"
+    TOP = "context['State']['Branch'][-1]"
+    PAR = "context['State']['Branch'][-2]"
+    RES = "self.branch_metadata[%s].results" % ARN
+    REC = "%s[%s['ID']]" % (RES, TOP)
+    PREC = "%s[%s['ID']]" % (RES, PAR)
+    IDX = "%s.get('Index', 0)" % TOP
+    HASP = "(seqlen(%s) > 1 and %s['ID'] in %s and istrue(%s))" % (ST, PAR, RES, PREC)
+    T_OWN = "istrue(%s.get('terminated'))" % REC
+    T_PAR = "(%s and istrue(%s.get('terminated')))" % (HASP, PREC)
+    c = Contract(
+        E.SE + "StateEngine.branch_has_terminated",
+        types={"self": "obj", "state_type": "str", "context": "dict", "id": "any", "timeout": "any"},
+        requires=[
+            "isdict(context['State'])", "isdict(context['Execution'])", "isstr(%s)" % ARN, "isdict(self.branch_metadata)",
+            "isobj(self.event_dispatcher)", "not same(context, self.branch_metadata)", "not same(context['State'], self.branch_metadata)",
+            # the event's branch stack: a non-empty list of entries {ID, Index?, Length, Range?}
+            "implies(%s, islist(%s) and seqlen(%s) >= 1 and isdict(%s) and isstr(%s['ID']) and "
+            "(not ('Index' in %s) or (isint(%s['Index']) and %s['Index'] >= 0)))" % (BR, ST, ST, TOP, TOP, TOP, TOP, TOP),
+            "implies(%s and seqlen(%s) > 1, isdict(%s) and isstr(%s['ID']) and isint(%s['Index']) and %s['Index'] >= 0)"
+            % (BR, ST, PAR, PAR, PAR, PAR),
+            # the join state exists already (type invariant of branch_metadata: an object with a `results` dict of join
+            # records {results, ids, state [, terminated]} whose lists have one slot per branch)
+            "implies(%s, %s in self.branch_metadata and isobj(self.branch_metadata[%s]) and isdict(%s) and %s['ID'] in %s and "
+            "isdict(%s) and islist(%s['results']) and islist(%s['ids']) and %s < seqlen(%s['results']) and %s < seqlen(%s['ids']) and "
+            "not same(%s['results'], %s['ids']))" % (BR, ARN, ARN, RES, TOP, RES, REC, REC, REC, IDX, REC, IDX, REC, REC, REC),
+            "implies(%s and %s, isdict(%s) and islist(%s['results']) and %s['Index'] < seqlen(%s['results']) and "
+            "not same(%s['results'], %s['results']) and not same(%s['results'], %s['ids']) and not same(%s, %s))"
+            % (BR, HASP, PREC, PREC, PAR, PREC, PREC, REC, PREC, REC, PREC, REC),
+        ],
+        ensures=[
+            ("C06:outside-every-fan-out-nothing-is-terminated", "implies(not old(%s), result == False and b_nack == old(b_nack) and "
+                                                                "b_ncpr == old(b_ncpr))" % BR),
+            # C02 / C06: an event is dropped exactly when its own fan-out or the enclosing one carries the terminated mark
+            ("C02,C06:terminated-iff-own-or-enclosing-mark", "implies(old(%s), istrue(result) == (old(%s) or old(%s)))" % (BR, T_OWN, T_PAR)),
+            # C03 / C06: a dropped event is acknowledged (whatever its state type) and the join state is tidied after that
+            ("C03,C06:dropped-event-acknowledged-then-tidied", "implies(old(%s) and istrue(result), b_nack == old(b_nack) + 1 and same(b_ack_id, id) and "
+                                                               "b_ncpr == old(b_ncpr) + 1 and same(b_cpr_arn, old(%s)))" % (BR, ARN)),
+            ("C05,C06:own-slot-marked-terminated", "implies(old(%s) and istrue(result), old(%s['results'])[old(%s)] == '__TERMINATED__')" % (BR, REC, IDX)),
+            # C05: the enclosing fan-out's slot is overwritten only when the enclosing fan-out itself is terminated -- a
+            # branch that recovered through the inner state's Catch keeps its place in the outer join
+            ("C05:enclosing-slot-kept-unless-enclosing-terminated",
+             "implies(old(%s) and old(%s) and not old(%s), same_contents(old(%s['results']), old(%s['results'])))" % (BR, HASP, T_PAR, PREC, PREC)),
+            ("C06:enclosing-slot-marked-when-enclosing-terminated",
+             "implies(old(%s) and old(%s), old(%s['results'])[old(%s['Index'])] == '__TERMINATED__')" % (BR, T_PAR, PREC, PAR)),
+            # C03 / C05: a live event is held by its join (its id stored at its index) unless it is a Map / Parallel state's own
+            # event; results are untouched, nothing is acknowledged
+            ("C03,C05:live-event-held-by-the-join", "implies(old(%s) and not istrue(result) and state_type != 'Parallel' and state_type != 'Map', "
+                                                    "same(old(%s['ids'])[old(%s)], id))" % (BR, REC, IDX)),
+            ("C05:live-event-changes-no-result", "implies(old(%s) and not istrue(result), same_contents(old(%s['results']), old(%s['results'])) and "
+                                                 "b_nack == old(b_nack) and b_ncpr == old(b_ncpr))" % (BR, REC, REC)),
+        ],
+        raises={}, covers_exit=[("dropped-by-enclosing-mark", "old(%s) and old(%s) and not old(%s)" % (BR, T_PAR, T_OWN)),
+                                ("live-nested", "old(%s) and old(%s) and not istrue(result)" % (BR, HASP))],
+        protected=["self", "context", "context['State']", "self.branch_metadata", "self.event_dispatcher", ST, TOP,
+                   "self.branch_metadata[%s]" % ARN, RES, REC, "%s['results']" % REC, "%s['ids']" % REC],
+        modifies="ALL")
+    c.scope = sc
+    return c
